@@ -19,6 +19,11 @@ HARNESSES = [
          unwind=513, malloc_fail=True, timeout=600, weight=6,
          nochecks=["--conversion-check"],
          cases=[dict(id="hdr512", tier="quick")]),
+    dict(name="read_header", file="read_header.c", label="bounded(header records per call <= 3)",
+         defines=CT, unwind=513, malloc_fail=True, timeout=900, weight=7,
+         nochecks=["--conversion-check"],
+         cases=[dict(id="rec2", defines={"MAXREC": 2}, tier="quick"),
+                dict(id="rec3", defines={"MAXREC": 3}, tier="thorough")]),
     dict(name="hardlink", file="hardlink.c", label="bounded(link graph nodes <= 4)",
          timeout=900, weight=8,
          cases=[dict(id="n2", defines={"NODES": 2}, unwind=6, tier="quick"),
